@@ -324,7 +324,12 @@ class _CommonFile:
 
     def _encode_user(self, user):
         """user-specific wrapper for _encode_field()"""
-        return self._encode_field(user, "user")
+        user = self._encode_field(user, "user")
+        # NOTE: the user is the first field of the line, and a line whose first
+        #       non-blank character is "#" reads as a comment (see _load_lines()).
+        if user.lstrip().startswith(_BHASH):
+            raise ValueError(f"user may not start with '#': {user!r}")
+        return user
 
     def _encode_realm(self, realm):  # pragma: no cover - abstract method
         """realm-specific wrapper for _encode_field()"""
